@@ -20,7 +20,7 @@ func init() {
 	hx.Register("hsretry", runHsretry)
 }
 
-type rtHist struct {
+type hsrHist struct {
 	c        *hx.Ctx
 	w        *nebula.VerifHSWorld
 	retries  int64
@@ -37,9 +37,9 @@ type rtHist struct {
 	maxQueue int
 }
 
-func newRtHist(c *hx.Ctx, retries int64, interval time.Duration, ports []uint16) *rtHist {
+func newHsrHist(c *hx.Ctx, retries int64, interval time.Duration, ports []uint16) *hsrHist {
 	w := nebula.VerifHSNewWorld(nebula.VerifHSConfig{MyAddrs: []uint64{1}, Retries: retries, TryInterval: interval, AllowPorts: ports})
-	h := &rtHist{c: c, w: w, retries: retries, interval: interval, ports: ports, base: time.Unix(1700000000, 0), right: map[uint64]int{},
+	h := &hsrHist{c: c, w: w, retries: retries, interval: interval, ports: ports, base: time.Unix(1700000000, 0), right: map[uint64]int{},
 		feat: map[string]bool{}}
 	for a := uint64(3); a <= 6; a++ {
 		h.right[a] = w.NewPeer(2, []nebula.VerifHSPeerAddr{{Addr: a, Bits: 8}})
@@ -48,7 +48,7 @@ func newRtHist(c *hx.Ctx, retries int64, interval time.Duration, ports []uint16)
 	return h
 }
 
-func (h *rtHist) cfgLit() string {
+func (h *hsrHist) cfgLit() string {
 	var ps []uint64
 	for _, p := range h.ports {
 		ps = append(ps, uint64(p))
@@ -56,7 +56,7 @@ func (h *rtHist) cfgLit() string {
 	return hx.App("mkRC", hx.Z(int64(h.interval)), hx.Z(h.retries), hx.NList(ps))
 }
 
-func (h *rtHist) record(opLit string, desc any) {
+func (h *hsrHist) record(opLit string, desc any) {
 	outs := h.w.TakeOutputs()
 	var ol []string
 	for _, o := range outs {
@@ -92,7 +92,7 @@ func (h *rtHist) record(opLit string, desc any) {
 	h.ops = append(h.ops, desc)
 }
 
-func (h *rtHist) opStart(a uint64, remotes []uint64) {
+func (h *hsrHist) opStart(a uint64, remotes []uint64) {
 	_, had := h.w.PendingID(a)
 	h.w.StartWithRemotes(a, remotes)
 	canon := remotes
@@ -102,7 +102,7 @@ func (h *rtHist) opStart(a uint64, remotes []uint64) {
 	h.record(hx.App("RStart", hx.N(a), hx.NList(canon)), []any{"start", a, canon})
 }
 
-func (h *rtHist) opCache(a uint64, port uint16) {
+func (h *hsrHist) opCache(a uint64, port uint16) {
 	h.tag++
 	pk := h.w.DataPacket(a, port, h.tag)
 	if ready := h.w.Cache(a, pk); ready {
@@ -111,7 +111,7 @@ func (h *rtHist) opCache(a uint64, port uint16) {
 	h.record(hx.App("RCache", hx.N(a), hx.App("mkPkt", hx.N(uint64(h.tag)), hx.N(uint64(port)))), []any{"cache", a, h.tag, port})
 }
 
-func (h *rtHist) opSetRemotes(a uint64, remotes []uint64) {
+func (h *hsrHist) opSetRemotes(a uint64, remotes []uint64) {
 	canon := remotes
 	if h.w.SetRemotes(a, remotes) {
 		canon = h.w.Remotes(a)
@@ -119,13 +119,13 @@ func (h *rtHist) opSetRemotes(a uint64, remotes []uint64) {
 	h.record(hx.App("RSetRemotes", hx.N(a), hx.NList(canon)), []any{"remotes", a, canon})
 }
 
-func (h *rtHist) opTrigger(a uint64) {
+func (h *hsrHist) opTrigger(a uint64) {
 	h.w.Trigger(a)
 	h.feat["trigger"] = true
 	h.record(hx.App("RTrigger", hx.N(a)), []any{"trigger", a})
 }
 
-func (h *rtHist) opTick(delta int64) {
+func (h *hsrHist) opTick(delta int64) {
 	h.now += delta
 	before := len(h.w.Pending())
 	h.w.TimerTick(h.base.Add(time.Duration(h.now)))
@@ -135,7 +135,7 @@ func (h *rtHist) opTick(delta int64) {
 	h.record(hx.App("RTick", hx.Z(h.now)), []any{"tick", h.now})
 }
 
-func (h *rtHist) ready(a uint64) (uint64, bool) {
+func (h *hsrHist) ready(a uint64) (uint64, bool) {
 	id, ok := h.w.PendingID(a)
 	if !ok || !h.w.Stage2Applicable(id) {
 		return 0, false
@@ -143,7 +143,7 @@ func (h *rtHist) ready(a uint64) (uint64, bool) {
 	return id, true
 }
 
-func (h *rtHist) opComplete(a uint64) {
+func (h *hsrHist) opComplete(a uint64) {
 	if id, ok := h.ready(a); ok {
 		h.w.DeliverStage2(id, h.right[a], 77, uint64(h.now), 1)
 		h.w.DropMainTunnels() // this component follows pending handshakes only
@@ -152,7 +152,7 @@ func (h *rtHist) opComplete(a uint64) {
 	h.record(hx.App("RComplete", hx.N(a)), []any{"complete", a})
 }
 
-func (h *rtHist) opWrong(a uint64, v uint64) {
+func (h *hsrHist) opWrong(a uint64, v uint64) {
 	if id, ok := h.ready(a); ok {
 		h.w.DeliverStage2(id, h.wrong, 78, uint64(h.now), v)
 		h.feat["wrong"] = true
@@ -160,7 +160,7 @@ func (h *rtHist) opWrong(a uint64, v uint64) {
 	h.record(hx.App("RWrong", hx.N(a), hx.N(v)), []any{"wrong", a, v})
 }
 
-func (h *rtHist) emit(cw *hx.CaseWriter, label string) {
+func (h *hsrHist) emit(cw *hx.CaseWriter, label string) {
 	kind := label
 	if kind == "" {
 		var fs []string
@@ -184,7 +184,7 @@ func (h *rtHist) emit(cw *hx.CaseWriter, label string) {
 		map[string]any{"retries": h.retries, "interval_ns": int64(h.interval), "allow_ports": h.ports, "ops": h.ops})
 }
 
-func (h *rtHist) remotes() []uint64 {
+func (h *hsrHist) remotes() []uint64 {
 	n := h.c.Intn(4)
 	seen := map[uint64]bool{}
 	var r []uint64
@@ -198,9 +198,9 @@ func (h *rtHist) remotes() []uint64 {
 	return r
 }
 
-func (h *rtHist) port() uint16 { return []uint16{1000, 1001, 2000, 53}[h.c.Intn(4)] }
+func (h *hsrHist) port() uint16 { return []uint16{1000, 1001, 2000, 53}[h.c.Intn(4)] }
 
-func (h *rtHist) delta() int64 {
+func (h *hsrHist) delta() int64 {
 	i := int64(h.interval)
 	switch r := h.c.Intn(100); {
 	case r < 8:
@@ -220,7 +220,7 @@ func (h *rtHist) delta() int64 {
 	}
 }
 
-func (h *rtHist) randomOp() {
+func (h *hsrHist) randomOp() {
 	a := uint64(3 + h.c.Intn(4))
 	if h.c.Chance(0.5) {
 		a = 3
@@ -251,11 +251,11 @@ func (h *rtHist) randomOp() {
 
 // ---- fixed histories ------------------------------------------------------------------------------------
 
-func rtCorpus(c *hx.Ctx, cw *hx.CaseWriter) {
+func hsrCorpus(c *hx.Ctx, cw *hx.CaseWriter) {
 	sec := time.Second
 	// 1. every retry count 1..12: start, tick through all attempts one interval at a time, until the handshake is gone
 	for r := int64(1); r <= 12; r++ {
-		h := newRtHist(c, r, sec, []uint16{1000})
+		h := newHsrHist(c, r, sec, []uint16{1000})
 		h.opTick(0)
 		h.opStart(3, []uint64{1, 2})
 		h.opCache(3, 1000)
@@ -267,7 +267,7 @@ func rtCorpus(c *hx.Ctx, cw *hx.CaseWriter) {
 	}
 	// 2. the queue bound: 0, 1, 99, 100, 101, 150 packets, mixed ports, then completion (and completion of an empty queue)
 	for _, n := range []int{0, 1, 99, 100, 101, 150} {
-		h := newRtHist(c, 10, 100*time.Millisecond, []uint16{1000, 2000})
+		h := newHsrHist(c, 10, 100*time.Millisecond, []uint16{1000, 2000})
 		h.opTick(0)
 		h.opStart(3, []uint64{1})
 		for i := 0; i < n; i++ {
@@ -285,7 +285,7 @@ func rtCorpus(c *hx.Ctx, cw *hx.CaseWriter) {
 	// 3. completion at attempt j = 1..5, never; wrong responder keeps the queue and restarts the schedule (with the old
 	//    wheel entry still turning)
 	for j := 1; j <= 5; j++ {
-		h := newRtHist(c, 5, sec, []uint16{1000})
+		h := newHsrHist(c, 5, sec, []uint16{1000})
 		h.opTick(0)
 		h.opCache(4, 1000)
 		h.opCache(4, 53)
@@ -305,7 +305,7 @@ func rtCorpus(c *hx.Ctx, cw *hx.CaseWriter) {
 	}
 	// 4. lighthouse triggers: no new remotes (counts as an attempt, sends nothing), new remotes (sends, timer untouched)
 	{
-		h := newRtHist(c, 4, sec, []uint16{1000})
+		h := newHsrHist(c, 4, sec, []uint16{1000})
 		h.opTick(0)
 		h.opStart(3, nil)
 		h.opTrigger(3)
@@ -318,9 +318,30 @@ func rtCorpus(c *hx.Ctx, cw *hx.CaseWriter) {
 		h.opTick(int64(sec) * 5)
 		h.emit(cw, "corpus-trigger")
 	}
+	// 4b. the witnesses of props/C32.v on the real code: two triggers use up retries = 2; after a wrong-responder restart
+	//     the timer entry of the abandoned attempt keeps turning and the restarted handshake transmits twice in one tick
+	{
+		h := newHsrHist(c, 2, 10*time.Millisecond, nil)
+		h.opTick(0)
+		h.opStart(3, []uint64{1})
+		h.opTrigger(3)
+		h.opTrigger(3)
+		h.opTick(int64(20 * time.Millisecond))
+		h.emit(cw, "corpus-witness-trigger")
+	}
+	{
+		h := newHsrHist(c, 5, 10*time.Millisecond, nil)
+		h.opTick(0)
+		h.opStart(3, []uint64{1})
+		h.opTick(int64(20 * time.Millisecond))
+		h.opWrong(3, 2)
+		h.opTick(int64(20 * time.Millisecond))
+		h.opTick(int64(20 * time.Millisecond))
+		h.emit(cw, "corpus-witness-stale-entry")
+	}
 	// 5. irregular clock: sub-interval ticks, a gap longer than a revolution, interval not dividing the gaps
 	{
-		h := newRtHist(c, 6, 7*time.Millisecond, []uint16{1000})
+		h := newHsrHist(c, 6, 7*time.Millisecond, []uint16{1000})
 		h.opTick(0)
 		h.opStart(3, []uint64{1})
 		h.opStart(4, []uint64{2})
@@ -333,12 +354,12 @@ func rtCorpus(c *hx.Ctx, cw *hx.CaseWriter) {
 
 func runHsretry(c *hx.Ctx) {
 	cw := c.NewCaseWriter("From NV Require Import model.Wheel model.HsRetry corr.HsRetry_corr.", "HsRetry_corr.case", "HsRetry_corr.check_case", 8)
-	rtCorpus(c, cw)
+	hsrCorpus(c, cw)
 	intervals := []time.Duration{100 * time.Millisecond, time.Second, 7 * time.Millisecond, 250 * time.Millisecond, 1500 * time.Microsecond}
 	for i := 0; i < c.N; i++ {
 		r := int64(1 + c.Intn(12))
 		ports := [][]uint16{{1000}, {1000, 2000}, nil, {53, 1001}}[c.Intn(4)]
-		h := newRtHist(c, r, intervals[c.Intn(len(intervals))], ports)
+		h := newHsrHist(c, r, intervals[c.Intn(len(intervals))], ports)
 		h.opTick(0)
 		n := 40 + c.Intn(30)
 		for j := 0; j < n; j++ {
